@@ -597,33 +597,42 @@ followed an unquoted scalar -/
 def RelQ (r : Reader) (pos : Nat) (bom : Bom) (d : Bytes) : Prop :=
   Rel r pos bom d ∨ ∃ tl, d = 32 :: tl ∧ Rel r (pos + 1) bom tl
 
-/-- `Out` with the quirk allowed in the reader that is left behind -/
-def OutQ (res : Res (Option Token)) (pos : Nat) (bom : Bom) (d : Bytes) : Prop :=
+/-- `OutOk` with the quirk allowed in the reader that is left behind -/
+def OutQOk (res : Res (Option Token)) (cap : Nat) (pos : Nat) (bom : Bom) (d : Bytes) : Prop :=
   match specStep (pos == 0) bom d with
-  | some (.tok adv t b') => ∃ r', res = .ok r' (some t) ∧ RelQ r' (pos + adv) b' (d.drop adv) ∧ adv ≤ d.length
-  | some (.end_ b') => ∃ r', res = .ok r' none ∧ Rel r' (pos + d.length) b' []
+  | some (.tok adv t b') => ∃ r', res = .ok r' (some t) ∧ RelQ r' (pos + adv) b' (d.drop adv) ∧ adv ≤ d.length ∧ r'.cap = cap
+  | some (.end_ b') => ∃ r', res = .ok r' none ∧ Rel r' (pos + d.length) b' [] ∧ r'.cap = cap
   | some (.eof a _) => ∃ r', res = .err r' .eof ∧ r'.position = pos + a
   | none => True
 
-theorem Out.toQ {res : Res (Option Token)} {pos : Nat} {bom : Bom} {d : Bytes} (h : Out res pos bom d) :
-    OutQ res pos bom d := by
-  unfold Out at h; unfold OutQ
+def OutQ (res : Res (Option Token)) (cap : Nat) (pos : Nat) (bom : Bom) (d : Bytes) : Prop :=
+  FullAlt cap d res ∨ OutQOk res cap pos bom d
+
+theorem Out.toQ {res : Res (Option Token)} {cap pos : Nat} {bom : Bom} {d : Bytes} (h : Out res cap pos bom d) :
+    OutQ res cap pos bom d := by
+  rcases h with h | h
+  · left; exact h
+  right
+  unfold OutOk at h; unfold OutQOk
   cases hs : specStep (pos == 0) bom d with
   | none => simp
   | some st =>
     rw [hs] at h
     cases st with
-    | tok adv t b' => obtain ⟨r', h1, h2, h3⟩ := h; exact ⟨r', h1, Or.inl h2, h3⟩
+    | tok adv t b' => obtain ⟨r', h1, h2, h3, h4⟩ := h; exact ⟨r', h1, Or.inl h2, h3, h4⟩
     | end_ b' => exact h
     | eof a b' => exact h
 
 /-- one swallowed space in front does not matter -/
-theorem OutQ_space {res : Res (Option Token)} {pos : Nat} {bom : Bom} {tl : Bytes}
-    (h : OutQ res (pos + 1) bom tl) : OutQ res pos bom (32 :: tl) := by
+theorem OutQ_space {res : Res (Option Token)} {cap pos : Nat} {bom : Bom} {tl : Bytes}
+    (h : OutQ res cap (pos + 1) bom tl) : OutQ res cap pos bom (32 :: tl) := by
+  rcases h with h | h
+  · left; exact h.mono (by simp)
+  right
   have hs : Skips (pos == 0) [32] 0 bom bom := .blank (by decide) (.nil _ _)
   have hp : (pos + 1 == 0) = false := by simp
   have hsp := spec_skip hs (by simp) tl
-  unfold OutQ at h ⊢
+  unfold OutQOk at h ⊢
   rw [hp] at h
   simp only [List.singleton_append, List.length_singleton] at hsp
   rw [hsp]
@@ -634,15 +643,15 @@ theorem OutQ_space {res : Res (Option Token)} {pos : Nat} {bom : Bom} {tl : Byte
     cases st with
     | tok adv t b' =>
       simp only [Option.map_some, shiftStep] at h ⊢
-      obtain ⟨r', h1, h2, h3⟩ := h
-      refine ⟨r', h1, ?_, by simp; omega⟩
+      obtain ⟨r', h1, h2, h3, h4⟩ := h
+      refine ⟨r', h1, ?_, by simp; omega, h4⟩
       have e1 : pos + (adv + 1) = pos + 1 + adv := by omega
       have e2 : (32 :: tl).drop (adv + 1) = tl.drop adv := by simp
       rw [e1, e2]; exact h2
     | end_ b' =>
       simp only [Option.map_some, shiftStep] at h ⊢
-      obtain ⟨r', h1, h2⟩ := h
-      refine ⟨r', h1, ?_⟩
+      obtain ⟨r', h1, h2, h3⟩ := h
+      refine ⟨r', h1, ?_, h3⟩
       have e1 : pos + (32 :: tl).length = pos + 1 + tl.length := by simp; omega
       rw [e1]; exact h2
     | eof a b' =>
@@ -650,17 +659,18 @@ theorem OutQ_space {res : Res (Option Token)} {pos : Nat} {bom : Bom} {tl : Byte
       obtain ⟨r', h1, h2⟩ := h
       exact ⟨r', h1, by rw [h2]; omega⟩
 
-/-- **one call of `next`, fast path in play, every fault-free schedule** -/
+/-- **one call of `next`, fast path in play, every fault-free schedule, every capacity** -/
 theorem nextOpt_spec (r : Reader) (pos : Nat) (bom : Bom) (d : Bytes) (fuel : Nat)
     (hrel : Rel r pos bom d) (hfuel : 2 * r.src.rest.length + 4 ≤ fuel) :
-    OutQ (nextOpt fuel r) pos bom d := by
+    OutQ (nextOpt fuel r) r.cap pos bom d := by
   rcases nextOpt_vs_scan fuel r with h | ⟨adv, t, r', hscan, hres, hadv⟩
   · rw [h]; exact (run_fallback_spec _ r pos bom d fuel rfl hrel hfuel).toQ
-  · rw [hrel.pos, hrel.bom] at hscan
+  · right
+    rw [hrel.pos, hrel.bom] at hscan
     have hd : d = r.win ++ r.src.rest := hrel.data.symm
     have hstab := fbLoop_stable r.src.rest hscan
     rw [← hd] at hstab
-    unfold OutQ specStep
+    unfold OutQOk specStep
     rw [hstab]
     simp only [interp]
     rcases hadv with ha | ⟨h32, ha⟩
@@ -668,18 +678,18 @@ theorem nextOpt_spec (r : Reader) (pos : Nat) (bom : Bom) (d : Bytes) (fuel : Na
         unfold TextReader.advance at ha; split at ha
         · assumption
         · simp at ha
-      obtain ⟨r'', ha', hrel', _, _, _⟩ := hrel.advance adv hk
+      obtain ⟨r'', ha', hrel', _, _, hcap'⟩ := hrel.advance adv hk
       rw [ha] at ha'; simp only [Option.some.injEq] at ha'; subst ha'
-      exact ⟨r', hres, Or.inl hrel', by rw [hd]; simp; omega⟩
+      exact ⟨r', hres, Or.inl hrel', by rw [hd]; simp; omega, hcap'⟩
     · have hk : adv + 1 ≤ r.win.length := by
         unfold TextReader.advance at ha; split at ha
         · assumption
         · simp at ha
-      obtain ⟨r'', ha', hrel', _, _, _⟩ := hrel.advance (adv + 1) hk
+      obtain ⟨r'', ha', hrel', _, _, hcap'⟩ := hrel.advance (adv + 1) hk
       rw [ha] at ha'; simp only [Option.some.injEq] at ha'; subst ha'
       refine ⟨r', hres, Or.inr ⟨d.drop (adv + 1), ?_, by
         have : pos + adv + 1 = pos + (adv + 1) := by omega
-        rw [this]; exact hrel'⟩, by rw [hd]; simp; omega⟩
+        rw [this]; exact hrel'⟩, by rw [hd]; simp; omega, hcap'⟩
       have h1 : d.drop adv = (r.win.drop adv) ++ r.src.rest := by
         rw [hd, List.drop_append_of_le_length (by omega)]
       rw [h1, drop_of_getElem? h32]
@@ -688,23 +698,51 @@ theorem nextOpt_spec (r : Reader) (pos : Nat) (bom : Bom) (d : Bytes) (fuel : Na
 
 theorem nextOpt_specQ (r : Reader) (pos : Nat) (bom : Bom) (d : Bytes) (fuel : Nat)
     (hrel : RelQ r pos bom d) (hfuel : 2 * d.length + 4 ≤ fuel) :
-    OutQ (nextOpt fuel r) pos bom d := by
+    OutQ (nextOpt fuel r) r.cap pos bom d := by
   rcases hrel with h | ⟨tl, rfl, h⟩
   · exact nextOpt_spec r pos bom d fuel h (by have := h.rest_le; omega)
   · exact OutQ_space (nextOpt_spec r (pos + 1) bom tl fuel h (by have := h.rest_le; simp at hfuel; omega))
 
-theorem lexAll_agree (n : Nat) : ∀ (r1 r2 : Reader) (pos : Nat) (bom : Bom) (d : Bytes) (f1 f2 : Nat) (acc : List Token),
-    RelQ r1 pos bom d → RelQ r2 pos bom d → 2 * d.length + 4 ≤ f1 → 2 * d.length + 4 ≤ f2 →
-    (lexAll f1 n r1 acc).toks = (lexAll f2 n r2 acc).toks ∧ (lexAll f1 n r1 acc).out = (lexAll f2 n r2 acc).out ∧
-    ((lexAll f1 n r1 acc).out = .end_ →
-      (lexAll f1 n r1 acc).final.position = pos + d.length ∧ (lexAll f2 n r2 acc).final.position = pos + d.length) := by
+theorem lexAll_toks_prefix (fuel : Nat) : ∀ (n : Nat) (r : Reader) (acc : List Token),
+    acc.reverse <+: (lexAll fuel n r acc).toks := by
+  intro n
   induction n with
-  | zero => intro r1 r2 pos bom d f1 f2 acc _ _ _ _; simp [lexAll]
+  | zero => intro r acc; simp [lexAll]
   | succ n ih =>
-    intro r1 r2 pos bom d f1 f2 acc h1 h2 hf1 hf2
+    intro r acc
+    rw [lexAll]
+    split
+    · rename_i r' t _
+      have := ih r' (t :: acc)
+      simp only [List.reverse_cons] at this
+      exact List.IsPrefix.trans (List.prefix_append _ _) this
+    all_goals simp
+
+/-- the streaming reader `r1` (fast path in play) against a slice reader `r2` over the same remaining input -/
+theorem lexAll_vs_slice (n : Nat) : ∀ (r1 r2 : Reader) (pos : Nat) (bom : Bom) (d : Bytes) (f1 f2 : Nat) (acc : List Token),
+    RelQ r1 pos bom d → RelQ r2 pos bom d → r2.cap = 0 → 2 * d.length + 4 ≤ f1 → 2 * d.length + 4 ≤ f2 →
+    ((lexAll f1 n r1 acc).out = .err .full ∧ (lexAll f1 n r1 acc).toks <+: (lexAll f2 n r2 acc).toks ∧
+      r1.cap ≠ 0 ∧ r1.cap ≤ d.length) ∨
+    ((lexAll f1 n r1 acc).toks = (lexAll f2 n r2 acc).toks ∧ (lexAll f1 n r1 acc).out = (lexAll f2 n r2 acc).out ∧
+     ((lexAll f1 n r1 acc).out = .end_ →
+      (lexAll f1 n r1 acc).final.position = pos + d.length ∧ (lexAll f2 n r2 acc).final.position = pos + d.length)) := by
+  induction n with
+  | zero => intro r1 r2 pos bom d f1 f2 acc _ _ _ _ _; right; simp [lexAll]
+  | succ n ih =>
+    intro r1 r2 pos bom d f1 f2 acc h1 h2 hz hf1 hf2
     have o1 := nextOpt_specQ r1 pos bom d f1 h1 hf1
     have o2 := nextOpt_specQ r2 pos bom d f2 h2 hf2
-    unfold OutQ at o1 o2
+    have o2 : OutQOk (nextOpt f2 r2) r2.cap pos bom d := by
+      rcases o2 with ⟨_, _, hne, _⟩ | h
+      · exact absurd hz hne
+      · exact h
+    rcases o1 with ⟨r', hfull, hne, hle, hwd⟩ | o1
+    · left
+      have hl : (lexAll f1 (n + 1) r1 acc).toks = acc.reverse ∧ (lexAll f1 (n + 1) r1 acc).out = .err .full := by
+        simp [lexAll, next, hfull]
+      refine ⟨hl.2, ?_, hne, by omega⟩
+      rw [hl.1]; exact lexAll_toks_prefix _ _ _ _
+    unfold OutQOk at o1 o2
     have hsome := specStep_isSome (pos == 0) bom d
     cases hsp : specStep (pos == 0) bom d with
     | none => rw [hsp] at hsome; simp at hsome
@@ -712,24 +750,29 @@ theorem lexAll_agree (n : Nat) : ∀ (r1 r2 : Reader) (pos : Nat) (bom : Bom) (d
       rw [hsp] at o1 o2
       cases st with
       | tok adv t b' =>
-        obtain ⟨r1', e1, hr1, hle⟩ := o1
-        obtain ⟨r2', e2, hr2, _⟩ := o2
+        obtain ⟨r1', e1, hr1, hle, hc1⟩ := o1
+        obtain ⟨r2', e2, hr2, _, hc2⟩ := o2
         simp only [lexAll, next, e1, e2]
         have hl : (d.drop adv).length ≤ d.length := by simp
-        have := ih r1' r2' (pos + adv) b' (d.drop adv) f1 f2 (t :: acc) hr1 hr2 (by omega) (by omega)
-        refine ⟨this.1, this.2.1, ?_⟩
-        intro he
-        have h3 := this.2.2 he
-        have e : pos + adv + (d.drop adv).length = pos + d.length := by simp; omega
-        rw [← e]; exact h3
+        have := ih r1' r2' (pos + adv) b' (d.drop adv) f1 f2 (t :: acc) hr1 hr2 (by rw [hc2]; exact hz) (by omega) (by omega)
+        rcases this with ⟨ha, hb, hc, hd⟩ | this
+        · left; exact ⟨ha, hb, by rw [← hc1]; exact hc, by rw [← hc1]; omega⟩
+        · right
+          refine ⟨this.1, this.2.1, ?_⟩
+          intro he
+          have h3 := this.2.2 he
+          have e : pos + adv + (d.drop adv).length = pos + d.length := by simp; omega
+          rw [← e]; exact h3
       | end_ b' =>
-        obtain ⟨r1', e1, hr1⟩ := o1
-        obtain ⟨r2', e2, hr2⟩ := o2
+        obtain ⟨r1', e1, hr1, _⟩ := o1
+        obtain ⟨r2', e2, hr2, _⟩ := o2
+        right
         simp only [lexAll, next, e1, e2]
         exact ⟨by simp, by simp, fun _ => ⟨hr1.pos, hr2.pos⟩⟩
       | eof a b' =>
         obtain ⟨r1', e1, _⟩ := o1
         obtain ⟨r2', e2, _⟩ := o2
+        right
         simp only [lexAll, next, e1, e2]
         exact ⟨by simp, by simp, fun h => by simp at h⟩
 
